@@ -642,7 +642,9 @@ func init() {
 				return Float{C: native(a.C, b.C)}
 			}
 			e.declUF(name, "("+fpSort+" "+fpSort+") "+fpSort)
-			return Float{T: &Term{S: "(" + name + " " + a.term().S + " " + b.term().S + ")"}}
+			t := "(" + name + " " + a.term().S + " " + b.term().S + ")"
+			e.ufApps = append(e.ufApps, ufApp{term: t, args: []string{a.term().S, b.term().S}, eval: fp2(native)})
+			return Float{T: &Term{S: t}}
 		}
 	}
 	stubs["math.Mod"] = uf2("uf_math_mod", math.Mod)
